@@ -5,8 +5,31 @@ import json, os, subprocess, sys, time, glob
 HERE = os.path.dirname(os.path.dirname(os.path.abspath(__file__)))
 REPO = "/repo"
 
-def sh(cmd, **k):
-    return subprocess.run(cmd, shell=True, stdout=subprocess.PIPE, stderr=subprocess.STDOUT, text=True, **k)
+def sh(cmd, timeout=None, **k):
+    """runs in its own process group; on timeout the whole group is killed (pool workers included) and exit code 124 is reported"""
+    import signal, tempfile
+    with tempfile.TemporaryFile("w+") as out:
+        p = subprocess.Popen(cmd, shell=True, stdout=out, stderr=subprocess.STDOUT, text=True, start_new_session=True, **k)
+        try:
+            rc = p.wait(timeout=timeout)
+        except subprocess.TimeoutExpired:
+            os.killpg(p.pid, signal.SIGKILL)
+            p.wait()
+            rc = 124
+            # pool workers of THIS tree's interpreter only (a background run from a snapshot uses another interpreter path)
+            for pid in os.listdir("/proc"):
+                if pid.isdigit():
+                    try:
+                        cl = open("/proc/%s/cmdline" % pid, "rb").read().split(b"\0")
+                    except OSError:
+                        continue
+                    if cl and cl[0].decode() == os.path.join(HERE, ".venv/bin/python") and b"forkserver" in b" ".join(cl):
+                        try:
+                            os.kill(int(pid), signal.SIGKILL)
+                        except OSError:
+                            pass
+        out.seek(0)
+        return subprocess.CompletedProcess(cmd, rc, stdout=out.read())
 
 def main():
     os.environ["VERIF_EVIDENCE_DIR"] = "/tmp/vp_seeded_evidence"
@@ -25,7 +48,7 @@ def main():
         try:
             for cid in checks:
                 t = time.time()
-                p = sh("%s/vcheck %s --tier quick" % (HERE, cid), cwd=HERE)
+                p = sh("%s/vcheck %s --tier quick" % (HERE, cid), cwd=HERE, timeout=int(os.environ.get("EVAL_TIMEOUT", "1800")))
                 viol = [l for l in p.stdout.splitlines() if l.startswith("VIOLATION")]
                 detail = [l.strip() for l in p.stdout.splitlines() if l.strip().startswith("violated:")][:2]
                 out[cid] = dict(exit=p.returncode, violations=len(viol), wall_s=round(time.time() - t), detail=[x[:300] for x in detail])
